@@ -223,6 +223,11 @@ Record ndesc := mkDesc { n_cols : list col; n_pk : list name; n_cons : list con;
 (* INSERT INTO tmp (dst...) SELECT [CAST(]src[ AS ty)] ... : destination column name, source key, cast target *)
 Definition copymap := list (name * key * list ty).
 
+(* a primary key constraint without columns is not rendered *)
+Definition con_visible (c:con) : bool := negb (is_primary c && match k_cols c with [] => true | _ => false end).
+
+Definition no_transfer (trs:list (key * transfer)) : bool := forallb (fun p => negb (is_some (tr_expr (snd p)))) trs.
+
 Definition zip_pairs (a b:list key) : list (key * key) :=      (* (col_by_idx[i-1], existing[i]) for i >= 1 *)
   combine a (tl b).
 
@@ -256,11 +261,18 @@ Section Finish.
     | BOk (cols, trs) =>
       let keys := akeys trs in
       if has_dup (map (fun p => c_name (snd p)) cols) then BErr EDuplicateColumn       (* Table(...) refuses two columns of one name *)
+      else if no_transfer trs then BErr EKeyError       (* INSERT..SELECT without a single column: SQLAlchemy's compiler raises KeyError *)
       else
       let rn := cur_name cols in
       (* constraints whose columns are not all transferred are silently left out *)
       let kept := filter (fun c => sub_names (k_cols c) keys) (b_named s) in
-      let pk := if sub_names (b_pk s) keys then map rn (b_pk s) else [] in
+      (* the primary key of the new Table: the unnamed constraint if it is transferred with columns; else a named one among
+         the kept constraints (it then appears in n_cons); else whatever Table() derives from the columns' primary_key flags *)
+      let pk := match (if sub_names (b_pk s) keys then b_pk s else []) with
+                | [] => if existsb is_primary kept then []
+                        else map rn (filter (fun k => mem_name k (b_flags s)) (akeys cols))
+                | l => map rn l
+                end in
       (* _gather_indexes_from_both_tables: an existing index over a missing column fails in the database (CREATE INDEX),
          a new index over a missing key fails in Python (new_table.c[col]) *)
       (* (_copy_expression appends a copy of a missing column to the new Table object, so a new index may name it;
@@ -271,7 +283,7 @@ Section Finish.
       else if negb (forallb (fun x => sub_names (x_cols x) (akeys cols)) (b_idx s ++ b_newidx s)) then BErr EOperationalB
       else
       BOk (mkDesc (map snd cols) pk
-                  (map (fun c => mkCon (k_name c) (k_kind c) (map rn (k_cols c))) kept)
+                  (map (fun c => mkCon (k_name c) (k_kind c) (map rn (k_cols c))) (filter con_visible kept))
                   (map (fun x => mkIndex (x_name x) (map rn (x_cols x)) (x_unique x)) (b_idx s ++ b_newidx s)),
            flat_map (fun p => match tr_expr (snd p) with
                               | Some (src, cast) => [(rn (fst p), src, cast)]
@@ -324,7 +336,7 @@ Fixpoint direct_ops (ops:list batch_op) (T:tbl) : bres tbl :=
 Definition desc_of_tbl (T:tbl) : ndesc :=
   let rn := fun k => match aget k (tb_cols T) with Some c => c_name c | None => k end in
   mkDesc (map snd (tb_cols T)) (map rn (tb_pk T))
-         (map (fun c => mkCon (k_name c) (k_kind c) (map rn (k_cols c))) (tb_cons T))
+         (map (fun c => mkCon (k_name c) (k_kind c) (map rn (k_cols c))) (filter con_visible (tb_cons T)))
          (map (fun x => mkIndex (x_name x) (map rn (x_cols x)) (x_unique x)) (tb_idx T)).
 Definition identity_map (T:tbl) : list (name * key * list ty) := map (fun p => (c_name (snd p), fst p, [])) (tb_cols T).
 
